@@ -56,6 +56,8 @@ func scriptDecide(script []scriptEntry) func(refsmtp.Step) refsmtp.Action {
 			return refsmtp.Action{Kind: refsmtp.Stall}
 		case "mute":
 			return refsmtp.Action{Kind: refsmtp.Mute}
+		case "garbage":
+			return refsmtp.Action{Kind: refsmtp.Raw, Text: "hello, this line is not an SMTP reply\r\n"}
 		case "reply":
 			return refsmtp.Action{Kind: refsmtp.Reply, Code: e.Code, Text: e.Text}
 		}
@@ -187,6 +189,11 @@ func runSendT(newCfg func(n int) *refsmtp.Config, wrap func(n int, tc *faultio.T
 
 // runSendF is runSendT over a farm the caller has configured (e.g. for implicit TLS).
 func runSendF(farm *refsmtp.Farm, opts []mail.Option, msgs []*mail.Msg, via string, timeout time.Duration) *sendRun {
+	return runSendFC(farm, opts, msgs, via, timeout, nil)
+}
+
+// runSendFC: ctxHook (if not nil) receives the cancel function of the context the *WithContext calls get.
+func runSendFC(farm *refsmtp.Farm, opts []mail.Option, msgs []*mail.Msg, via string, timeout time.Duration, ctxHook func(context.CancelFunc)) *sendRun {
 	sr := &sendRun{}
 	sr.Farm = farm
 	base := []mail.Option{mail.WithDialContextFunc(sr.Farm.Dial), mail.WithTimeout(timeout), mail.WithHELO("client.verif.example")}
@@ -207,6 +214,9 @@ func runSendF(farm *refsmtp.Farm, opts []mail.Option, msgs []*mail.Msg, via stri
 		defer func() { sr.Panic = recover() }()
 		ctx, cancel := context.WithTimeout(context.Background(), 12*time.Second)
 		defer cancel()
+		if ctxHook != nil {
+			ctxHook(cancel)
+		}
 		switch via {
 		case "dialandsend":
 			err := cl.DialAndSendWithContext(ctx, msgs...)
